@@ -4,51 +4,76 @@
 (* on a real dictable, with the table before and after the call and the encoded outcome;        *)
 (* or (op = "session") one recorded HISTORY of such calls on one table, all taking their filters *)
 (* from one pool of caller-owned objects (IncSession.tla), with the pool and the table as the     *)
-(* caller sees them after every call.                                                            *)
+(* caller sees them after every call; between the calls the caller may edit his objects in place, *)
+(* calls may take fresh objects holding the old contents, be made on a second table, and the      *)
+(* columns of the real table carry the names the session's naming gives them.                     *)
 EXTENDS IncSession, Batch
 
 IsTable(o) == o.kind = "table"
 
-\* one call e = [call, out, pool_after, t_after, opd_after] of a recorded session on table t with the pool p0 as it was
-\* BEFORE THE FIRST call: nothing of the caller's may have changed, and the outcome is judged against the
-\* ORIGINAL contents of the filters (calls outside the statement's domain are only held to that).
-\* opd = the table the call was made on: t, or (call.on = "last") the table the previous call returned, prev = that
+\* A recorded session o = [t, u, nm, pool, calls]: t, u (the second table), pool (as the caller built it) and the calls are logged
+\* in the law's column names together with the naming nm = [f |-> column -> real name, ident]; what was OBSERVED (out,
+\* pool_after, args_after, t_after, u_after, opd_after) carries the real names.  An entry of o.calls is a public call or
+\* (call.op = "edit") the caller's own in-place edit of a pool object.
+IsEdit(e) == e.call.op = "edit"
+RECURSIVE PoolAt(_, _), PrevAt(_, _), LastCallBefore(_, _)
+\* what the caller's objects hold before entry k (his edits applied), what they held before his latest edit, the latest call before k
+PoolAt(o, k) == IF k = 1 THEN o.pool ELSE IF IsEdit(o.calls[k - 1]) THEN ApplyEdit(PoolAt(o, k - 1), o.calls[k - 1].call) ELSE PoolAt(o, k - 1)
+PrevAt(o, k) == IF k = 1 THEN o.pool ELSE IF IsEdit(o.calls[k - 1]) THEN PoolAt(o, k - 1) ELSE PrevAt(o, k - 1)
+LastCallBefore(o, k) == IF k = 1 THEN 0 ELSE IF IsEdit(o.calls[k - 1]) THEN LastCallBefore(o, k - 1) ELSE k - 1
+UnRenRow(r, f) == [x \in {y \in DOMAIN f : f[y] \in DOMAIN r} |-> r[f[x]]]
+UnRenRows(rs, f) == [i \in 1..Len(rs) |-> UnRenRow(rs[i], f)]
+
+\* one call e = [call, out, pool_after, args_after, t_after, u_after, opd_after] of a recorded session: nothing of the caller's may
+\* have changed (pnow = what his objects hold by his own doing), and the outcome is judged against the contents the
+\* filters had AT THE MOMENT OF THE CALL (pargs: pnow, or for fresh objects with the old contents what the pool held before
+\* the latest edit); calls outside the statement's domain are only held to the former.
+\* opd = the table the call was made on: t, u, or (call.on = "last") the table the previous call returned, prev = that
 \* previous outcome as it was logged then - it must still read the same after this call
-CallClause(t, opd, prev, p0, e) ==
-    LET cl == e.call  out == e.out  cd == CondOf(p0, cl) IN
-    IF e.t_after # t THEN "operand_changed"
+CallClause(o, opd, prev, pnow, pargs, e) ==
+    LET cl == e.call  out == e.out  cd == CondOf(pargs, cl)  f == o.nm.f  cols == RenCols(o.t.cols, f) IN
+    IF e.t_after # RenT(o.t, f) \/ e.u_after # RenT(o.u, f) THEN "operand_changed"
     ELSE IF cl.on = "last" /\ e.opd_after # prev THEN "operand_changed"
-    ELSE IF e.pool_after # p0 THEN "filter_argument_changed"
-    ELSE IF ~InDomain(opd, p0, cl) THEN ""
+    ELSE IF e.pool_after # Canon(RenPool(pnow, f), cols) THEN "filter_argument_changed"
+    ELSE IF cl.src = "old" /\ e.args_after # Canon(RenPool(pargs, f), cols) THEN "filter_argument_changed"
+    ELSE IF ~(InDomain(opd, pargs, cl) /\ Expressible(o.nm, opd, pargs, cl)) THEN ""
     ELSE IF out \in MixedRaises(opd, cl, cd) THEN ""          \* named deviation MixedEmptied
     ELSE CASE cl.op = "inc" ->
                 IF ~IsTable(out) THEN "inc_not_a_table"
-                ELSE IF Range(out.cols) # ColSet(opd) THEN "inc_columns"
-                ELSE IF out.rows # IncC(opd, cd).rows THEN "inc_rows" ELSE ""
+                ELSE IF Range(out.cols) # Range(cols) THEN "inc_columns"
+                ELSE IF out.rows # RenRows(IncC(opd, cd).rows, f) THEN "inc_rows" ELSE ""
            [] cl.op = "exc" ->
                 IF ~IsTable(out) THEN "exc_not_a_table"
-                ELSE IF Range(out.cols) # ColSet(opd) THEN "exc_columns"
-                ELSE IF out.rows \notin {x.rows : x \in ExcReadings(opd, cd)} THEN "exc_rows" ELSE ""
+                ELSE IF Range(out.cols) # Range(cols) THEN "exc_columns"
+                ELSE IF out.rows \notin {RenRows(x.rows, f) : x \in ExcReadings(opd, cd)} THEN "exc_rows" ELSE ""
            [] cl.op = "find" ->
                 LET want == FindC(opd, cl.col, cd) IN
                 IF out.kind = "exc" THEN (IF RaisesOut(out.cls) \in want THEN "" ELSE "find_raised")
                 ELSE IF out.kind = "val" /\ [kind |-> "val", v |-> out.v] \in want THEN "" ELSE "find_value"
            [] cl.op = "one" ->
-                LET sel == OneSel(opd, p0, cl) IN
+                LET sel == OneSel(opd, pargs, cl) IN
                 IF Len(sel) = 0 THEN (IF out.kind = "none" THEN "" ELSE "one_or_none_empty")
-                ELSE IF Len(sel) = 1 THEN (IF out.kind = "row" /\ out.row = sel[1] THEN "" ELSE "one_or_none_single")
+                ELSE IF Len(sel) = 1 THEN (IF out.kind = "row" /\ out.row = RenRow(sel[1], f) THEN "" ELSE "one_or_none_single")
                 ELSE IF out.kind = "exc" /\ out.cls = "ValueError" THEN "" ELSE "one_or_none_multiple"
            [] OTHER -> "unknown_op"
-\* the k-th call of a recorded history; a call on the previous result needs that result to be a table
+\* the k-th entry of a recorded history; a call on the previous result needs that result to be a table
 KthClause(o, k) ==
-    LET e == o.calls[k] IN
-    IF e.call.on = "last"
-    THEN (IF k > 1 /\ IsTable(o.calls[k - 1].out)
-          THEN CallClause(o.t, TableOf(o.calls[k - 1].out, o.t.cols), o.calls[k - 1].out, o.pool, e)
-          ELSE "chained_on_nothing")
-    ELSE CallClause(o.t, o.t, e.out, o.pool, e)
-\* the first call of the history the specification does not explain, as "<index>:<clause>"
-SessionVerdict(o) ==
+    LET e == o.calls[k]  pnow == PoolAt(o, k)  j == LastCallBefore(o, k) IN
+    IF IsEdit(e) THEN (IF e.pool_after = Canon(RenPool(ApplyEdit(pnow, e.call), o.nm.f), RenCols(o.t.cols, o.nm.f)) THEN "" ELSE "edit_not_as_logged")
+    ELSE LET pargs == IF e.call.src = "old" THEN PrevAt(o, k) ELSE pnow IN
+         IF e.call.on = "last"
+         THEN (IF j > 0 /\ IsTable(o.calls[j].out)
+               THEN CallClause(o, [cols |-> o.t.cols, rows |-> UnRenRows(o.calls[j].out.rows, o.nm.f)], o.calls[j].out, pnow, pargs, e)
+               ELSE "chained_on_nothing")
+         ELSE CallClause(o, IF e.call.on = "u" THEN o.u ELSE o.t, e.out, pnow, pargs, e)
+\* the first entry of the history the specification does not explain, as "<index>:<clause>" (later entries are not looked
+\* at: they may have been made on a result that is no table of the law's columns)
+RECURSIVE FirstBad(_, _)
+FirstBad(o, k) == IF k > Len(o.calls) THEN ""
+                  ELSE LET v == KthClause(o, k) IN IF v # "" THEN ToString(k) \o ":" \o v ELSE FirstBad(o, k + 1)
+SessionVerdict(o) == FirstBad(o, 1)
+
+Verdict(o) ==
     LET bad == {k \in 1..Len(o.calls) : KthClause(o, k) # ""} IN
     IF bad = {} THEN ""
     ELSE LET k == CHOOSE k \in bad : \A j \in bad : k <= j IN ToString(k) \o ":" \o KthClause(o, k)
